@@ -66,6 +66,19 @@ CLAIMED["C10"] = dict(
         "controlled: completion orders are enumerated with an in-process stub Pool only.",
    technique="Coq proof (commutation/frame lemmas over insertion-ordered maps) + paired real fits (hash seeds, orders, subsets, n_jobs, stubbed pools)",
    design="5/C10")
+CLAIMED["C11"] = dict(
+   text="Proved on the carving model (Coq, all inputs): the model reads a sample only through per-unit target "
+        "multisets; row permutations (train and dev independently, missing rows included) leave them "
+        "unchanged, the carver's outcome depends on the multisets only (chi2, Kruskal, frequencies, rates, "
+        "ranks all proved invariant), and a strictly increasing re-encoding of a quantitative feature sends "
+        "every row to the same unit. Exercised on the real code on every run by metamorphic pairs: row "
+        "permutation, index offsets/shuffled ints/strings, exact affine maps, order-preserving category "
+        "renamings; kept features and the partition of rows induced by transform must not change; the "
+        "original fit is also compared with the carving model.",
+   note="The invariance of the BASE discretization (quantiles, rare-bucket merging) under monotone maps is "
+        "covered by the metamorphic runs only (order statistics); labels are scale dependent by design.",
+   technique="Coq proof (multiset-equivalence congruence of the whole carving model) + metamorphic pairs on the real code",
+   design="5/C11")
 NOT_YET = "not yet built in this round: model and correspondence for this property are still to be written (see DESIGN.md section 9 build order)"
 
 checks = []
